@@ -95,6 +95,26 @@ def run_case(case):
         tie = next((j for j, tt in enumerate(m["ties"]) if close(tt, d[0]) and j not in chosen), None)
         if tie is None:
             break
+        # "admission before the stall" is a legitimate resolution of the tie unless the library's own same-time-step rule
+        # decides it robustly: the arriving head was never delayed (its travel is exactly length/speed, no stall
+        # arithmetic involved) and the request instant is not earlier than the arrival instant as a float.  In that case
+        # the unchanged library refuses in either event order, and so does the model.
+        idx = d[3]
+        if d[1] == "admit" and idx < len(r.req_put):
+            robust = False
+            for hi, it in enumerate(r.items):
+                v = r.t_offer.get(id(it))
+                if v is None or not close(v, m["ties"][tie]) or hi >= len(r.t_put):
+                    continue
+                undelayed = close(v - r.t_put[hi], r.travel_nominal)
+                # same floating-point test as the library's rule ("an item is going to be in ready_items in the same
+                # time step, so do not allow another item"): elapsed travel >= item_length*capacity/speed
+                c = case["conv"]
+                full = (c["il"] * r.capacity / c["v"]) if c["kind"] == "continuous" else r.travel_nominal
+                if undelayed and not (r.req_put[idx] < v) and (v - r.t_put[hi]) >= full:
+                    robust = True
+            if robust:
+                break
         chosen.add(tie)
         tried += 1
         m2 = model_for(case, admit_first=tuple(chosen))
